@@ -83,6 +83,20 @@ func (h *ReaderSrv) ReadPat(ctx context.Context, r io.Reader, call int, pattern 
 				return "", err
 			}
 		}
+	case 6: // read a head, close, then keep using the reader: further reads must fail with an error and a second close must not panic
+		b := make([]byte, 100)
+		n, _ := io.ReadFull(r, b)
+		buf.Write(b[:n])
+		if c, ok := r.(io.Closer); ok {
+			extra += fmt.Sprintf(" close=%v", c.Close())
+			for k := 0; k < 2; k++ {
+				h.s.Yield("after-close")
+				n, err := r.Read(make([]byte, 16))
+				extra += fmt.Sprintf(" afterclose%d=%d,%v", k, n, err != nil)
+			}
+			c.Close()
+			extra += " closed-twice"
+		}
 	case 5: // read half, then close
 		b := make([]byte, 35000)
 		n, _ := io.ReadFull(r, b)
@@ -108,12 +122,15 @@ func init() {
 		Params: func(tier string) []Param {
 			var ps []Param
 			lens := []int{0, 1, 4095, 4096, 4097, 70000}
-			for _, pat := range []int{0, 1, 2, 3, 4, 5} {
+			for _, pat := range []int{0, 1, 2, 3, 4, 5, 6} {
 				for _, l := range lens {
 					if pat == 1 && l > 5000 {
 						continue
 					}
 					if pat == 5 && l != 70000 {
+						continue
+					}
+					if pat == 6 && l != 4097 && l != 70000 {
 						continue
 					}
 					b := 0
@@ -129,6 +146,9 @@ func init() {
 					ps = append(ps, Param{Name: fmt.Sprintf("n1-pat%d-len%d", pat, l), Bound: b, V: map[string]int{"n": 1, "pat": pat, "len": l}})
 				}
 			}
+			// the rendezvous between upload and request (both arrive "at the same time") on the
+			// smallest payload, one level deeper
+			ps = append(ps, Param{Name: "n1-pat0-len1-deep", Bound: 3, V: map[string]int{"n": 1, "pat": 0, "len": 1}})
 			b2 := 1
 			if tier == "thorough" {
 				b2 = 2
@@ -182,6 +202,9 @@ func readerBody(s *vsched.Sched, p Param) {
 			if pat == 5 {
 				want = want[:35000]
 			}
+			if pat == 6 {
+				want = want[:100]
+			}
 			exp := fmt.Sprintf("n=%d sum=%x", len(want), sha256.Sum256(want))
 			if !strings.HasPrefix(v, exp) {
 				s.Violate("C20: call %d: the handler did not observe exactly the caller's %d bytes (pattern %d): got %.60s want %.60s", c, ln, pat, v, exp)
@@ -196,7 +219,7 @@ func readerBody(s *vsched.Sched, p Param) {
 			}
 		}
 		// the uploading HTTP request completes (200) once the handler consumed the stream
-		if pat != 5 {
+		if pat != 5 && pat != 6 {
 			ups := 0
 			for li := 1; li < w.Net.LinkCount(); li++ {
 				// uploads may share a keep-alive connection: count the responses on each link
